@@ -43,7 +43,7 @@ def run_both(exe, drv, script, timeout=120):
     ms, k = [], 0
     for l in script:
         ms.append(l)
-        if l.strip() == "load":
+        if l.strip() in ("load", "dup", "adopt") or l.startswith("xmlreload "):
             if k < len(infos):
                 ms.append(infos[k])
             k += 1
@@ -239,7 +239,34 @@ class Evaluator:
                 state_lines.append(l)
                 pending = (t[1], G.expected_thissystem_cfg(t[2] == "1", t[3] == "1", t[4] == "1", None if t[5] == "-" else int(t[5])))
                 continue
-            if t[0] == "load":
+            if ci < len(cl) and cl[ci].startswith("X real affinity"):
+                run.violation("real-affinity-changed", cl[ci], "kind: input\nscript:\n%s\nend-script\n%s\n" % ("\n".join(state_lines), cl[ci]))
+                ci += 1
+            if t[0] in ("dup", "adopt"):
+                state_lines.append(l)
+                src = T
+                T = None
+                if ci < len(cl) and cl[ci].startswith("I "):
+                    T = G.Topo(cl[ci])
+                    mline = ml[ci] if ci < len(ml) else "<missing>"
+                    rp = "kind: input\nscript:\n%s\nend-script\nimpl:  %s\nmodel: %s\n" % ("\n".join(state_lines), cl[ci], mline)
+                    run.count(cl[ci] + "|" + l, nontrivial=True, kind="derive:" + t[0])
+                    self.stats["derivations"] = self.stats.get("derivations", 0) + 1
+                    if src is not None:
+                        # a derived topology is this system iff its source is, and carries the hooks that go with it
+                        wanth = src.hooks if src.this else (1 << 22) - 1 - (1 << 20)
+                        if T.this != src.this or (t[0] == "dup" and T.hooks != src.hooks) or (not src.this and T.hooks != wanth):
+                            run.violation("derived-hook-selection:" + t[0], "source this=%d hooks=%x, %s gives this=%d hooks=%x" % (src.this, src.hooks, t[0], T.this, T.hooks), rp)
+                        elif mline != cl[ci]:
+                            run.violation("correspondence:derive:" + t[0], "model and implementation differ after %s: impl=%r model=%r" % (t[0], cl[ci], mline), rp, no_input=True)
+                        else:
+                            run.cov["traces_validated_against_impl"] += 1
+                else:
+                    run.violation("derive-failed:" + t[0], "%s failed: %s" % (t[0], cl[ci] if ci < len(cl) else "<missing>"),
+                                  "kind: input\nscript:\n%s\nend-script\n" % "\n".join(state_lines), no_input=True)
+                ci += 1
+                continue
+            if t[0] in ("load", "xmlreload"):
                 state_lines.append(l)
                 T = None
                 if ci < len(cl) and cl[ci].startswith("I "):
@@ -376,6 +403,26 @@ def build_scripts(run, exe):
                           "samb 4096 %s 2 32" % n, "amb 4096 %s 2 36" % n]
                     s += G.gen_calls(rng, T, 12)
                     s += ["destroy"]
+            # DERIVED topologies: dup, dup of dup, shmem write+adopt, XML export reloaded into a fresh handle; the
+            # binding transcript then runs on the derivation (a foreign source must stay foreign: dummy hooks)
+            chains = [["dup"], ["dup", "dup"], ["adopt"], ["dup", "adopt"], ["xmlreload 0"], ["xmlreload 2"], ["dup", "xmlreload 0", "dup"]]
+            for ti, (cfg, T) in enumerate(zip(cfgs, topos)):
+                if T is None:
+                    continue
+                for rep in range(2 if not thorough else 5):
+                    chain = chains[(ti + rep * 3) % len(chains)] if rep < 2 else rng.choice(chains)
+                    s += ["new"] + stage(("ok:" + cfg[0],) + cfg[1:])
+                    for d in chain:
+                        if d.startswith("xmlreload"):
+                            fl = int(d.split()[1])
+                            s.append(G.cfg_line("ok:xmlreload:" + cfg[0], "xml", bool(fl & 2), None))
+                        s.append(d)
+                    s += ["mode os"] + G.gen_os_state(rng)
+                    c, n = T.cs.text(), T.ns.text()
+                    s += ["scb %s 2" % c, "scb %s 0" % c, "gcb 2", "gcb 0", "glcl 2", "stcb %s 0" % c, "spcb 0 %s 0" % c, "smb %s 2 34" % n, "gmb 34",
+                          "spmb 0 %s 2 32" % n, "samb 4096 %s 2 32" % n, "gamb 4096 32", "amb 4096 %s 2 36" % n]
+                    s += G.gen_calls(rng, T, 10)
+                    s += ["destroy"]
         scripts.append(s)
     return scripts
 
@@ -432,6 +479,9 @@ def live_part(run, live):
                 script.append("threadload %d %d" % (c, fl))
                 nthread += 1
     script += ["env HWLOC_COMPONENTS"]
+    # binding through a FOREIGN topology, its duplicate and a duplicate of that must not touch the real affinity
+    for c in cpus[:16]:
+        script.append("foreigndup %d pu:%d" % (c, max(cpus) + 1))
     script += ["rawbind " + nontrivial.text(), "affinity", "loadcheck 0", "loadcheck 2"]
     script += ["env HWLOC_COMPONENTS x86", "loadcheck 0", "env HWLOC_COMPONENTS x86,stop", "loadcheck 0", "env HWLOC_COMPONENTS -x86", "loadcheck 0",
                "env HWLOC_COMPONENTS", "loadcheck 16", "affinity", "rawbind " + orig.text(), "affinity"]
@@ -440,7 +490,7 @@ def live_part(run, live):
     if rc != 0:
         run.violation("live-crash", "live harness failed rc=%d" % rc, "kind: live\nscript:\n%s\nend-script\n%s" % ("\n".join(script[:50]), err.decode(errors="replace")[-2000:]))
         return
-    nrt = nload = nthr = 0
+    nrt = nload = nthr = nfor = 0
     x86_seen = False
     affs = []
     for l in ol:
@@ -476,12 +526,19 @@ def live_part(run, live):
                               "kind: live\nscript:\nthreadload %s %s\nend-script\n%s\n" % (kv["cpu"], kv["flags"], l))
             elif kv["main_after"] != kv["main_before"]:
                 run.violation("live-load-changes-other-thread", "hwloc_topology_load in a worker changed the main thread's affinity: " + l, "kind: live\n" + l + "\n")
+        elif l.startswith("F "):
+            kv = dict(f.split("=", 1) for f in l.split()[1:])
+            nfor += 1
+            run.count(l, nontrivial=True, kind="live:foreign-" + kv["which"], sample={"live": l})
+            if kv["before"] != kv["after"] or kv["set_rc"] != "0" or kv["get_rc"] != "0" or kv["get"] != kv["complete"] or kv["this"] != "0":
+                run.violation("live-foreign-topology-binds:" + kv["which"], "binding through a topology that is not this system (%s) had a system effect or did not report the whole machine: %s" % (kv["which"], l),
+                              "kind: live\nscript:\nforeigndup %s pu:16\nend-script\n%s\n" % (kv["cpu"], l))
         elif l.startswith("A raw="):
             affs.append(l.split("=", 1)[1])
     if len(affs) < 4 or affs[-1] != orig.text() or affs[1] != nontrivial.text() or affs[2] != nontrivial.text():
         run.violation("live-restore", "affinity sequence %r (original %s, test binding %s)" % (affs, orig.text(), nontrivial.text()), "kind: live\n" + "\n".join(ol[-12:]))
     run.cov["live"] = {"observed_not_proved": True, "allowed_cpus": n, "exhaustive_subsets": exhaustive, "round_trips": nrt,
-                       "load_checks": nload, "threaded_load_checks": nthr, "x86_backend_exercised": x86_seen, "original_affinity_restored": bool(affs) and affs[-1] == orig.text()}
+                       "load_checks": nload, "threaded_load_checks": nthr, "foreign_dup_checks": nfor, "x86_backend_exercised": x86_seen, "original_affinity_restored": bool(affs) and affs[-1] == orig.text()}
     if nrt != len(subsets) or nload < 6 or nthr != nthread:
         run.violation("live-incomplete", "live part produced %d round trips (wanted %d) and %d load checks" % (nrt, len(subsets), nload), "kind: live\n" + "\n".join(ol[-8:]), no_input=True)
 
